@@ -146,6 +146,9 @@ func (e *Engine) intercept(fn *ssa.Function, args []Value) (Value, bool) {
 		if !e.onceDone[l] {
 			e.onceDone[l] = true
 			e.callValue(args[1])
+			e.hb.onceEv[l] = e.hbAdd('o', nil, "", "once-done")
+		} else if ev, ok := e.hb.onceEv[l]; ok {
+			e.hbEdge(ev, e.hbAdd('o', nil, "", "once-seen"))
 		}
 		return nil, true
 	case "(*sync.WaitGroup).Add":
@@ -155,6 +158,10 @@ func (e *Engine) intercept(fn *ssa.Function, args []Value) (Value, bool) {
 	case "(*sync.WaitGroup).Done":
 		e.stub(key)
 		e.wgCount[args[0].(PtrV).L]--
+		if e.hb.on {
+			l := args[0].(PtrV).L
+			e.hb.wgDone[l] = append(e.hb.wgDone[l], e.hbAdd('d', nil, "", "wg.Done"))
+		}
 		return nil, true
 	case "(*sync.WaitGroup).Wait":
 		e.stub(key)
@@ -168,13 +175,27 @@ func (e *Engine) intercept(fn *ssa.Function, args []Value) (Value, bool) {
 				e.abort("BLOCKED", "WaitGroup.Wait")
 			}
 		}
+		if e.hb.on {
+			w := e.hbAdd('w', nil, "", "wg.Wait")
+			for _, d := range e.hb.wgDone[l] {
+				e.hbEdge(d, w)
+			}
+		}
 		return nil, true
 	case "(*sync/atomic.Bool).Store":
 		e.stub(key)
 		e.atomics[args[0].(PtrV).L] = args[1]
+		if e.hb.on {
+			e.hb.atomicEv[args[0].(PtrV).L] = e.hbAdd('a', nil, "", "atomic.Store")
+		}
 		return nil, true
 	case "(*sync/atomic.Bool).Load":
 		e.stub(key)
+		if e.hb.on {
+			if ev, ok := e.hb.atomicEv[args[0].(PtrV).L]; ok {
+				e.hbEdge(ev, e.hbAdd('a', nil, "", "atomic.Load"))
+			}
+		}
 		if v, ok := e.atomics[args[0].(PtrV).L]; ok {
 			return v, true
 		}
@@ -222,6 +243,65 @@ func (e *Engine) intercept(fn *ssa.Function, args []Value) (Value, bool) {
 		}
 		e.bigVals[args[0].(PtrV).L] = e.intQuo(e.bigOf(args[1]), y)
 		return args[0], true
+	case "(*math/big.Int).Sub":
+		e.stub(key)
+		e.bigVals[args[0].(PtrV).L] = tb.IBin("-", e.bigOf(args[1]), e.bigOf(args[2]))
+		return args[0], true
+	case "(*math/big.Int).Neg":
+		e.stub(key)
+		e.bigVals[args[0].(PtrV).L] = tb.IBin("-", tb.Int(0), e.bigOf(args[1]))
+		return args[0], true
+	case "(*math/big.Int).Set":
+		e.stub(key)
+		e.bigVals[args[0].(PtrV).L] = e.bigOf(args[1])
+		return args[0], true
+	case "(*math/big.Int).Rem":
+		e.stub(key)
+		y := e.bigOf(args[2])
+		if e.decide(tb.Eq(y, tb.Int(0)), "big-divzero") {
+			e.progPanic("division by zero (big.Int.Rem)")
+		}
+		e.bigVals[args[0].(PtrV).L] = e.intRem(e.bigOf(args[1]), y)
+		return args[0], true
+	case "(*math/big.Int).Div", "(*math/big.Int).Mod":
+		e.stub(key)
+		y := e.bigOf(args[2])
+		if e.decide(tb.Eq(y, tb.Int(0)), "big-divzero") {
+			e.progPanic("division by zero (big.Int.Div)")
+		}
+		op := "div"
+		if strings.HasSuffix(key, "Mod") {
+			op = "mod"
+		}
+		e.bigVals[args[0].(PtrV).L] = tb.IBin(op, e.bigOf(args[1]), y) // euclidean, as math/big
+		return args[0], true
+	case "(*math/big.Int).Sign":
+		e.stub(key)
+		v := e.bigOf(args[0])
+		r := tb.Ite(tb.ICmp("<", v, tb.Int(0)), tb.Int(-1), tb.Ite(tb.Eq(v, tb.Int(0)), tb.Int(0), tb.Int(1)))
+		if e.intMode {
+			return r, true
+		}
+		return e.asBV(tb.IBin("mod", r, tb.IntBig(pow2(64))), 64), true
+	case "(*math/big.Int).Cmp":
+		e.stub(key)
+		x, y := e.bigOf(args[0]), e.bigOf(args[1])
+		r := tb.Ite(tb.ICmp("<", x, y), tb.Int(-1), tb.Ite(tb.Eq(x, y), tb.Int(0), tb.Int(1)))
+		if e.intMode {
+			return r, true
+		}
+		return e.asBV(tb.IBin("mod", r, tb.IntBig(pow2(64))), 64), true
+	case "(*math/big.Int).IsInt64":
+		e.stub(key)
+		v := e.bigOf(args[0])
+		return tb.And(tb.ICmp("<=", tb.IntBig(new(big.Int).Neg(pow2(63))), v), tb.ICmp("<", v, tb.IntBig(pow2(63)))), true
+	case "(*math/big.Int).Int64":
+		e.stub(key)
+		v := e.bigOf(args[0])
+		if e.intMode {
+			return e.wrap(v, 64, true), true
+		}
+		return e.asBV(tb.IBin("mod", v, tb.IntBig(pow2(64))), 64), true
 	case "(*math/big.Int).IsUint64":
 		e.stub(key)
 		v := e.bigOf(args[0])
@@ -270,6 +350,7 @@ func (e *Engine) engineClosure(f FuncV, args []Value) Value {
 		cl = func(c *CtxObj) {
 			if c.done != nil && !c.done.closed {
 				c.done.closed = true
+				c.done.closeEv = e.hbAdd('c', c.done, "", "cancel")
 				e.tracef("cancel %s", c.done)
 			}
 			for _, ch := range c.children {
@@ -409,6 +490,9 @@ func (e *Engine) intrinsic(name string, fn *ssa.Function, args []Value) (Value, 
 	case "vPark":
 		c := chanOf(args[0])
 		c.parked = append(c.parked, unwrapAny(args[1]))
+		if e.hb.on {
+			c.parkedEv = append(c.parkedEv, e.hbAdd('s', c, "", "send(parked)"))
+		}
 		return nil, true
 	case "vParkedLen":
 		return e.intConst(64, int64(len(chanOf(args[0]).parked))), true
@@ -466,6 +550,7 @@ func (e *Engine) intrinsic(name string, fn *ssa.Function, args []Value) (Value, 
 		ch := find(cl, "channel").v.(ChanV).C
 		if !ch.closed {
 			ch.closed = true
+			ch.closeEv = e.hbAdd('c', ch, "", "break")
 			e.tracef("break-signal %s", ch)
 		}
 		// the real Close() goes through a sync.Once: mark it done so that a later Break() does not close again
@@ -546,7 +631,39 @@ func (e *Engine) intrinsic(name string, fn *ssa.Function, args []Value) (Value, 
 		i := e.concreteInt(args[0].(*Term), "vRunSpawned")
 		s := e.spawned[i]
 		e.spawnRan[i] = true
+		if e.hb.on {
+			prev := e.hb.role
+			role := fmt.Sprintf("goroutine%d", i)
+			if _, ok := e.hb.last[role]; !ok {
+				e.hb.pending[role] = s.hbEv
+			}
+			e.hb.role = role
+			e.hbAdd('b', nil, "", "start")
+			e.invoke(s.call, s.fn, s.args)
+			e.hb.role = prev
+			return nil, true
+		}
 		e.invoke(s.call, s.fn, s.args)
+		return nil, true
+	case "vRaceWatch":
+		e.hb.on = true
+		return nil, true
+	case "vRole":
+		e.hbSetRole(str(0))
+		return nil, true
+	case "vCheckRaces":
+		e.hbCheck()
+		return nil, true
+	case "vTouchR", "vTouchW": // user code reads / writes the elements of a slice it received
+		kind := byte('R')
+		if name == "vTouchW" {
+			kind = 'W'
+		}
+		if sl, ok := unwrapAny(args[0]).(SliceV); ok && sl.B != nil && e.hb.on {
+			for i := 0; i < sl.Len; i++ {
+				e.hbMemForce(kind, sl.B.cells[sl.Off+i], "user access to a delivered slice")
+			}
+		}
 		return nil, true
 	case "vRunLeftoverSpawned":
 		// C19: every goroutine the code started and the harness did not run explicitly must end by itself now
@@ -559,6 +676,7 @@ func (e *Engine) intrinsic(name string, fn *ssa.Function, args []Value) (Value, 
 			s := e.spawned[i]
 			e.h.Expect["GOROUTINE-LEAK"] = "fail:C19: a goroutine started by the discipline does not end after the discipline terminated"
 			e.inLeftover = true
+			e.sinkAll = false // after termination nobody drains anything any more
 			save := e.maxInstr
 			e.maxInstr = e.path.instrs + 300000
 			e.invoke(s.call, s.fn, s.args)
